@@ -69,6 +69,18 @@ func FSSparseFile(path string, size int64) {
 	}
 }
 
+// FSSparsePatch writes data at an offset of a sparse file (the rest stays a hole).
+func FSSparsePatch(path string, off int64, data []byte) {
+	f, err := os.OpenFile(path, os.O_WRONLY, 0)
+	if err != nil {
+		panic(err)
+	}
+	defer f.Close()
+	if _, err := f.WriteAt(data, off); err != nil {
+		panic(err)
+	}
+}
+
 func FSSetMtime(path string, t time.Time) {
 	if err := os.Chtimes(path, t, t); err != nil {
 		panic(err)
